@@ -194,9 +194,27 @@ def cross_index(ob, d, nswp, start):
     ob.describe('N', N); ob.describe('nswp', nswp); ob.describe('kick', kick)
     r = ex.call(interp_mod(ex).env['dmrg_cross'], [I.HostFn(user_function), list(N)], kw)
     ob.prove('function_was_called', len(calls) >= 1)
+    thresholds_relative(ob, ex, d)
     ob.wf(r)
     all_eq(ob, 'N', fields(ob, r)['N'], N)
     ob.frame()
+
+
+def thresholds_relative(ob, ex, d):
+    """every truncation of a sampled super-core uses a threshold RELATIVE to the norm of that super-core:
+    threshold^2 * (d-1) == eps^2 * ||S||^2  (rank_chop itself is used through its contract; an absolute threshold makes the accuracy
+    depend on the scale of the target)"""
+    from ttvc import gauge as _g
+    eps = z3.Real('eps')
+    evs = [e for e in ex.events if e[0] == 'rank_chop']
+    ob.prove('some_supercore_is_truncated', len(evs) >= 1)
+    for j, e_ in enumerate(evs):
+        rec = e_[4]
+        if rec is None or rec.get('chop_eps') is None:
+            ob.fail('svd%d.threshold_relative_to_the_supercore_norm' % j, 'ghost', 'rank_chop is not applied to the singular values of an SVD with a scalar threshold')
+            continue
+        b = _g.base_record(rec)
+        ob.prove('svd%d.threshold_relative_to_the_supercore_norm' % j, rec['chop_eps'] * rec['chop_eps'] * (d - 1) == eps * eps * b['fro2'], 'ghost')
 
 
 def _witness_index_matrices(ex, d):
@@ -276,6 +294,7 @@ def fi_values(ob, d, nswp, multi, start):
     ob.describe('N', N); ob.describe('nswp', nswp); ob.describe('kick', kick)
     r = ex.call(interp_mod(ex).env['function_interpolate'], [I.HostFn(user_function), xs if multi else xs[0]], kw)
     ob.prove('function_was_called', len(calls) >= 1)
+    thresholds_relative(ob, ex, d)
     ob.wf(r)
     all_eq(ob, 'N', fields(ob, r)['N'], N)
     ob.frame()
